@@ -228,6 +228,9 @@ def run(fx, tier):
                 key='C04:R-DOM:clear_pending_pubrels', where=f.file)
     v.rule('R-OWN', 'who may complete a parked reply handler, and with what')
     waiter_completion_rules(fx, v, 'C04')
+    # a PUBREL that arrives before the PUBREC write completes is parked; it must survive until its waiter registers
+    from c01 import fast_reply_rules
+    fast_reply_rules(fx, v, 'C04')
     # framing state vs connection: when the read reports a reconnect (try_again) every byte buffered from the OLD
     # connection is discarded before reading from the new one — otherwise the tail of an interrupted packet is joined
     # with the head of the retransmitted one and a corrupted message is delivered and acknowledged
